@@ -475,7 +475,11 @@ where
             }
         };
 
+        let order = self.dist.len();
+
         for (x, w) in self.digraph.out_neighbors_weighted(v) {
+            assert!(x < order, "x = {x} isn't in the digraph");
+
             let distance = distance + w;
             let dist_x = unsafe { dist_ptr.add(x) };
 
